@@ -29,7 +29,8 @@ fn domain(kernel: &str) -> (i64, i64) {
     let q = i64::from(Q);
     match kernel {
         "full_reduce32" | "partial_reduce32" => (-(1 << 30), 1 << 30),
-        "decompose" | "make_hint" | "power2round" | "mat_vec_mul" => (0, q - 1),
+        "decompose" | "make_hint" | "mat_vec_mul" => (0, q - 1),
+        "power2round" => (-4, q + 3),       // t = A s1 + s2 before / after reduction: the callers' values lie in [-eta, q - 1 + eta]
         "bit_pack" => (-((1 << 17) - 1), 1 << 17),
         "simple_bit_pack" => (0, 1023),
         "hint_bit_pack" => (0, 1),
@@ -95,10 +96,12 @@ fn ct_target(kernel: &str, inp: &Inputs) -> u64 {
             let sig: [u8; 2420] = crate::ml_dsa::sign_internal::<true, 4, 4, 32, 2420, 2560, 768>(78, 1 << 17, (Q - 1) / 88, 80, 39, &sk, b"message", &[1], &[2], &[3], rnd, true);
             acc += u64::from(sig[100]);
         }
-        _ => { acc = u64::MAX; }
+        _ => { panic!("unknown kernel"); }
     }
     acc
 }
+
+static mut MARK: u64 = 0;
 
 #[test]
 fn c14_trace_probe() {
@@ -110,7 +113,11 @@ fn c14_trace_probe() {
     let mut bytes = [0u8; 64];
     for b in bytes.iter_mut() { *b = g.next() as u8; }
     let inp = Inputs { a: core::array::from_fn(|k| coeffs(mode, val + 7 * k as i64, lo, hi)), bytes };
+    // markers for the memory-trace oracle: a volatile store to MARK immediately before and after the target
+    unsafe { core::ptr::write_volatile(core::ptr::addr_of_mut!(MARK), 1); }
     let r = core::hint::black_box(ct_target(core::hint::black_box(kernel.as_str()), core::hint::black_box(&inp)));
-    assert!(r != u64::MAX, "unknown kernel");
-    std::println!("C14-PROBE kernel={} mode={} val={} acc={}", kernel, mode, val, r);
+    unsafe { core::ptr::write_volatile(core::ptr::addr_of_mut!(MARK), 2); }
+    // constant text only: the output path must not depend on the secret (the memory-trace oracle compares whole runs)
+    core::hint::black_box(r);
+    std::println!("C14-PROBE done mark={:p}", unsafe { core::ptr::addr_of!(MARK) });
 }
